@@ -382,6 +382,8 @@ def run(ck: vlib.Check):
     cpath.write_text(json.dumps(cases))
     rc, so, se = vlib.run_impl_script("c17_impl.py", ["replay", cpath, vlib.SRC], timeout=1500)
     impl = None
+    model = None
+    by_key = {}
     if rc != 0:
         ck.tie_broken("correspondence", "implementation-replay", (se or so)[-1500:])
     else:
@@ -426,6 +428,32 @@ def run(ck: vlib.Check):
             ck.cov["correspondence"] = stats
             for c in cases[:3] + cases[8:11]:
                 ck.sample({"stream": c["stream"], "ops": c["ops"]})
+    # 2b the same histories once more with the file times spread around the end of daylight saving time of the process' time zone (POSIX TZ
+    #    string, no zone database needed; tick 3 is 2020-10-25 01:00:00 UTC = 03:00 CEST -> 02:00 CET): file times are instants, the zone of
+    #    the machine must not matter
+    if impl is not None and model is not None:
+        nz = 140 if ck.tier == "quick" else 700
+        zc = ck.bdir / "cases_tz.json"
+        zc.write_text(json.dumps(cases[:nz]))
+        rcz, soz, sez = vlib.run_impl_script("c17_impl.py", ["replay", zc, vlib.SRC], timeout=900,
+                                             env_extra={"TZ": "CET-1CEST,M3.5.0,M10.5.0/3", "C17_BASE": str(1603587600 - 3 * 600), "C17_TICK_NS": str(600 * 10 ** 9)})
+        if rcz != 0:
+            ck.tie_broken("correspondence", "implementation-replay (time zone with daylight saving)", (sez or soz)[-1200:])
+        else:
+            iz = json.loads(soz)
+            seen = set()
+            for v in iz["violations"]:
+                if v["kind"] == "stale-cache-after-import:process-held-old-table" or (v["kind"], v["short"]) in by_key or (v["kind"], v["short"]) in seen:
+                    continue
+                seen.add((v["kind"], v["short"]))
+                if len(seen) <= 3:
+                    ck.violation(f"C17:{v['kind']}:time-zone-with-dst:{v['short']}",
+                                 f"{v['kind']}: {v['detail']} - only when the file times fall around the end of daylight saving time of the process' time zone "
+                                 f"(TZ=CET-1CEST, ten-minute ticks around 2020-10-25 01:00 UTC); minimal operation list {v['short']}",
+                                 {"mode": "replay", "kind": v["kind"], "ops": v["ops"], "env": {"TZ": "CET-1CEST,M3.5.0,M10.5.0/3", "C17_BASE": str(1603587600 - 3 * 600), "C17_TICK_NS": str(600 * 10 ** 9)}})
+            model_z = model_eval(ck, cases[:nz], iz["cases"])
+            if model_z is not None:
+                ck.cov["correspondence_time_zone_with_dst"] = compare(ck, cases[:nz], iz["cases"], model_z)
     # 3 end-to-end with real numba (quick: create / negative control / table update; thorough: + interrupted clean-up,
     #   forced clear, relocated cache)
     level = "full" if ck.tier == "thorough" else "basic"
@@ -450,7 +478,7 @@ def replay(path):
         tmp = vlib.BUILD / "C17_replay_case.json"
         tmp.parent.mkdir(parents=True, exist_ok=True)
         tmp.write_text(json.dumps([{"ops": rp["ops"], "valid": True, "id": 0}]))
-        rc, so, se = vlib.run_impl_script("c17_impl.py", ["replay", tmp, vlib.SRC], timeout=600)
+        rc, so, se = vlib.run_impl_script("c17_impl.py", ["replay", tmp, vlib.SRC], timeout=600, env_extra=rp.get("env"))
         if rc != 0:
             print(se[-1500:])
             return 1
